@@ -644,3 +644,5 @@ _run_c19_prev11 = run
 def run(res, facts, tier):
     _run_c19_prev11(res, facts, tier)
     r11_overwrite(res, facts)
+    from . import c19_registry
+    c19_registry.run_rule(res, facts, tier)
